@@ -177,6 +177,64 @@ def time_entry_paths():
     return n, fails
 
 
+def time_guard_pairs():
+    """The single-value guard on a time-valued formal attribute, for every pair of times of a small family that mixes
+    zones: same instant written in two zones (the same value: re-adding is a no-op), the same clock reading in two zones
+    or with and without a zone (another value: refused with ProvException), given as datetime and as ISO string, through
+    add_attributes (dictionary and pair list) on a record whose time came from the typed factory, the constructor or
+    set_time.  What is 'the same value' comes from Python's own datetime equality, not from the library."""
+    import prov.model as M
+    tz = datetime.timezone
+    td = datetime.timedelta
+    fam = [datetime.datetime(2012, 3, 31, 12, 0), datetime.datetime(2012, 3, 31, 12, 0, tzinfo=tz.utc),
+           datetime.datetime(2012, 3, 31, 12, 0, tzinfo=tz(td(hours=1))), datetime.datetime(2012, 3, 31, 11, 0, tzinfo=tz.utc),
+           datetime.datetime(2012, 3, 31, 6, 30, tzinfo=tz(td(minutes=-330))), datetime.datetime(2012, 3, 31, 11, 0)]
+    fails = []
+    n = 0
+
+    def fresh(how, t):
+        d = M.ProvDocument()
+        d.add_namespace("ex", "http://example.org/")
+        if how == "factory":
+            return d.activity("ex:a", startTime=t), M.PROV_ATTR_STARTTIME
+        if how == "set_time":
+            r = d.activity("ex:a"); r.set_time(t, None); return r, M.PROV_ATTR_STARTTIME
+        return d.new_record(M.PROV_GENERATION, None, [(M.PROV_ATTR_ENTITY, "ex:e"), (M.PROV_ATTR_TIME, t)]), M.PROV_ATTR_TIME
+    for t1 in fam:
+        for t2 in fam:
+            same = (t1 == t2)
+            for how in ("factory", "set_time", "new_record"):
+                for form in ("datetime", "string"):
+                    for shape in ("dict", "pairs"):
+                        n += 1
+                        try:
+                            r, attr = fresh(how, t1)
+                        except Exception as e:
+                            fails.append({"what": "a valid time was refused", "time": t1.isoformat(), "path": how, "exc": repr(e)[:200]})
+                            continue
+                        v = t2 if form == "datetime" else t2.isoformat()
+                        arg = {attr: v} if shape == "dict" else [(attr, v)]
+                        before = [x.isoformat() for x in r.get_attribute(attr)]
+                        try:
+                            r.add_attributes(arg)
+                            raised = None
+                        except M.ProvException as e:
+                            raised = "ProvException"
+                        except Exception as e:
+                            raised = repr(e)[:200]
+                        after = [x.isoformat() if isinstance(x, datetime.datetime) else repr(x) for x in r.get_attribute(attr)]
+                        case = {"first": t1.isoformat(), "second": t2.isoformat(), "first_path": how, "second_as": form, "call": shape}
+                        if same and raised is not None:
+                            fails.append(dict(case, what="re-adding the same instant (written in another zone) is refused", exc=raised))
+                        elif same and after != before:
+                            fails.append(dict(case, what="re-adding the same instant changed the record", now=after))
+                        elif not same and raised != "ProvException":
+                            fails.append(dict(case, what="a second, different time was not refused with ProvException", got=raised, now=after))
+                        elif not same and after != before:
+                            fails.append(dict(case, what="a refused second time changed the record", now=after))
+    return n, fails
+
+
 def nontrivial(ops):
     return sum(1 for o in ops if o[0] in ("NewRecord", "Factory", "AddAttrs", "SetTime", "AddType")) >= 3
 
@@ -219,6 +277,17 @@ def fixed_programs():
     out.append(head + [["NewRecord", ["d", "0"], "Entity", ["S", "ex:e"], []],
                        ["ElemMethod", ["r", ["d", "0"], "0"], "wasGeneratedBy", [["activity", ["str", "ex:a"]], ["time", ts]], []],
                        ["AddAttrs", ["r", ["d", "0"], "1"], [[tq, ts]]]])
+    # the single-value guard on times that mix zones: same instant in two zones (no-op), same clock reading in two zones
+    # or with / without a zone (refused)
+    zt = [["time", "2012", "3", "31", "12", "0", "0", "0", "none"], ["time", "2012", "3", "31", "12", "0", "0", "0", "0"],
+          ["time", "2012", "3", "31", "12", "0", "0", "0", "60"], ["time", "2012", "3", "31", "11", "0", "0", "0", "0"],
+          ["str", "2012-03-31T12:00:00+01:00"], ["str", "2012-03-31T11:00:00Z"], ["str", "2012-03-31T12:00:00"]]
+    for a in zt[:4]:
+        prog = [["NewDoc"], ["AddNs", ["d", "0"], "ex", EXU],
+                ["NewRecord", ["d", "0"], "Activity", ["S", "ex:a"], [[["Q", "prov", PROVU, "startTime"], a]]]]
+        for b in zt:
+            prog.append(["AddAttrs", ["r", ["d", "0"], "0"], [[["Q", "prov", PROVU, "startTime"], b]]])
+        out.append(prog)
     # names given as full URIs (string and Identifier) whose local part holds the namespace URI once more, or the
     # URI of another declared namespace: the name found must have exactly that URI
     for u in (EXU + "x/" + EXU + "y", EXU + EXU, EXU + "a?u=http://zz.test/b", "http://zz.test/" + EXU + "z"):
@@ -245,8 +314,9 @@ def run(tier, seed, log, model_runs=True, enlarged=False):
                         theorem_note="C05_* over Record.add_attributes")
     n, fails = path_independence()
     n2, fails2 = time_entry_paths()
-    n += n2
-    fails = fails + fails2
+    n3, fails3 = time_guard_pairs()
+    n += n2 + n3
+    fails = fails + fails2 + fails3
     res["coverage"]["entry_path_cases"] = n
     for f in fails[:3]:
         res["violations"].append({"kind": "failing-input", "failure": f, "program": None})
